@@ -85,6 +85,7 @@ type StreamClient struct {
 	Closes     []uint16
 	Observers  map[uint16]couchbase.Observer
 	OpenCh     chan uint16     // signalled on every OpenStream call
+	HighColl   map[uint16]uint64 // answer to GetVBucketSeqNos(true) when set; High answers GetVBucketSeqNos(false)
 	EndOnClose bool          // CloseStream is followed by the end notification of that stream (servers older than 5.5.0, via gocbcore)
 	EndLate    time.Duration // ... delivered this much after CloseStream has returned (0: before it returns)
 	OnOpen     func(vb uint16) // called synchronously at the start of every OpenStream call
@@ -133,14 +134,20 @@ func (c *StreamClient) GetNumVBuckets() int { return c.NumVb }
 func (c *StreamClient) GetDcpAgentConfigSnapshot() (*gocbcore.ConfigSnapshot, error) {
 	return c.snap, nil
 }
-func (c *StreamClient) GetVBucketSeqNos(bool) (*wrapper.ConcurrentSwissMap[uint16, uint64], error) {
+func (c *StreamClient) GetVBucketSeqNos(awareCollection bool) (*wrapper.ConcurrentSwissMap[uint16, uint64], error) {
 	c.mu.Lock()
 	defer c.mu.Unlock()
 	if c.SeqNoErr != nil {
 		return nil, c.SeqNoErr
 	}
 	m := wrapper.CreateConcurrentSwissMap[uint16, uint64](64)
-	for k, v := range c.High {
+	src := c.High
+	if awareCollection && c.HighColl != nil {
+		// the high seqnos of the streamed collections only (what the metric collector asks for): lower than the vBucket's own
+		// when its newest documents are in other collections
+		src = c.HighColl
+	}
+	for k, v := range src {
 		m.Store(k, v)
 	}
 	return m, nil
